@@ -3,6 +3,7 @@ package main
 import (
 	"context"
 	"crypto/sha256"
+	"encoding/hex"
 	"fmt"
 	"net"
 
@@ -86,8 +87,29 @@ func (g *c02Peers) call(seed, detail string, key, content []byte, mode string, s
 			got, err = g.hnet.GetReceipts(key[1:])
 		}
 	})
+	// the same lookup through the RPC layer (what the production header source calls): it has no
+	// validator, so it may return what it found but must not put it into the store
+	getterPuts := x.st.puts
+	x.st.reset()
+	var apiErr error
+	amsg, asite := panicsTo(func() {
+		_, apiErr = portalwire.NewPortalAPI(g.client).RecursiveFindContent("0x" + hex.EncodeToString(key))
+	})
+	apiPuts := x.st.puts
+	x.st.reset()
+	x.st.puts = getterPuts
 	delete(g.served.Db, string(id[:]))
 	cs := x.mkCase(seed, "getter", detail, key, content, mode, serve)
+	if amsg != "" {
+		x.r.Violation("rejects-with-error-not-panic", asite, "panic in RecursiveFindContent: "+amsg, cs)
+	}
+	for _, p := range apiPuts {
+		if clause, _ := x.unbound(p.key, p.content); clause != "" {
+			x.r.Violation("stored-only-if-validated", "PortalProtocolAPI.RecursiveFindContent", fmt.Sprintf("%s: the RPC lookup for key %s (err=%v) stored what the peer served although it is not bound to the key", seed, hx(key), apiErr), cs)
+			break
+		}
+	}
+	x.r.Count("rpc_lookup_calls", 1)
 	what := fmt.Sprintf("%s, getter for key %s, peer serves %s (%s), header source: %s", seed, hx(key), hx(content), detail, mode)
 	getter := map[byte]string{0: "GetBlockHeader", 1: "GetBlockBody", 2: "GetReceipts"}[key[0]]
 	x.r.Count("getter_calls", 1)
